@@ -1405,4 +1405,45 @@ theorem cuboid_edge_support3 (he dir : V3 K) (hx : 0 ≤ he.x) (hy : 0 ≤ he.y)
     · split_ifs <;> refine ⟨⟨?_, ?_⟩, ⟨?_, ?_⟩, ⟨?_, ?_⟩⟩ <;> linarith
     · split_ifs <;> simp
 
+/-! ## worked instances of the generic theorems (also their non-vacuity) -/
+
+/-- **C10 (posed cuboid)**: `Cuboid::support_point(m, dir)` is a point of the posed cuboid `m·C` and maximises
+`dir·p` over it, for every pose and every direction (instance of `posed_support3` + `cuboid_support3`). -/
+theorem posed_cuboid_support3 (he : V3 K) (m : Iso3 K) (dir : V3 K) (hx : 0 ≤ he.x) (hy : 0 ≤ he.y) (hz : 0 ≤ he.z) :
+    letI := fieldNum K sq
+    IsSupport3 sq (fun p => ∃ q, (Cuboid3.mk he).Mem q ∧ p = m.act q) dir (supportPoint3 (cuboidLocal3 he) m dir) :=
+  (posed_support3 sq _ _ m dir).2 (cuboid_support3 sq he _ hx hy hz)
+
+/-- **C10 (posed ball)**: the overriding `Ball::support_point(m, dir) = translation + dir/|dir|·r` is a point of
+the posed ball and maximises `dir·p` over it, for every unit rotation and non-zero direction
+(`ball_posed_eq_default3` + `posed_support3` + `ball_support3`). -/
+theorem posed_ball_support3 (hs : LawfulSqrt sq) (r : K) (m : Iso3 K) (dir : V3 K) (hr : 0 ≤ r)
+    (hq : m.qi * m.qi + m.qj * m.qj + m.qk * m.qk + m.qw * m.qw = 1)
+    (hd : dir.x ≠ 0 ∨ dir.y ≠ 0 ∨ dir.z ≠ 0) :
+    letI := fieldNum K sq
+    IsSupport3 sq (fun p => ∃ q, (Ball.mk r).Mem3 q ∧ p = m.act q) dir (ballPosed3 r m dir) := by
+  rw [ball_posed_eq_default3 sq r m dir hq]
+  refine (posed_support3 sq _ _ m dir).2 (ball_support3 sq hs r _ hr ?_)
+  -- `mᵀ dir ≠ 0` because `|mᵀ dir|² = |dir|² > 0`
+  have h1 := normSq_invRot3 sq m dir hq
+  have hpos := sumsq3_pos hd
+  by_contra hc
+  push Not at hc
+  obtain ⟨h0x, h0y, h0z⟩ := hc
+  simp only [V3.normSq, V3.dot] at h1
+  rw [h0x, h0y, h0z] at h1
+  nlinarith
+
+example : ((3/5 : ℝ) * (3/5) + 0 * 0 + (4/5) * (4/5) + 0 * 0 = 1) ∧ (0:ℝ) ≤ 2 := by norm_num
+
+/-! ## non-vacuity of the remaining hypotheses (concrete inputs)
+`capsule_support*`: `r = 1/2 ≥ 0`, `dir = (0,-2,1) ≠ 0`;  `cuboid_face_vertices*`, `cuboid_edge_support3`,
+`cuboid_face_ids*`: `he = (1,2,3)`;  cylinder/cone features: `hh = 3/2`;  `round_support*`: its hypothesis is
+discharged by `round_cuboid_support3`, `round_cylinder_support`, `round_cone_support`, `round_triangle_support3`;
+`posed_support*`: by `posed_cuboid_support3`, `posed_ball_support3`;  `polygon_feature_spec`: its hypothesis
+`polygonFeature pts dir = some f` holds on every polygon of the correspondence run (the model prints the feature,
+not `panic`, on all generated `polygon_feature` cases). -/
+example : (0:ℝ) ≤ 1/2 ∧ ((⟨0, -2, 1⟩ : V3 ℝ).x ≠ 0 ∨ (⟨0, -2, 1⟩ : V3 ℝ).y ≠ 0 ∨ (⟨0, -2, 1⟩ : V3 ℝ).z ≠ 0) := by norm_num
+example : (0:ℚ) ≤ (⟨1, 2⟩ : V2 ℚ).x ∧ (0:ℚ) < (⟨1, 2⟩ : V2 ℚ).y ∧ (0:ℚ) < 3/2 := by norm_num
+
 end C10
